@@ -1,19 +1,23 @@
 //! One module per property; each exposes `run(&Ctx) -> RunResult` and `replay(&Ctx, check, case)`.
-pub mod c01;
-
 use crate::report::{Ctx, RunResult};
 use serde_json::Value;
 
-pub fn run(ctx: &Ctx) -> Option<RunResult> {
-    match ctx.prop.as_str() {
-        "C01" => Some(c01::run(ctx)),
-        _ => None,
-    }
+macro_rules! props {
+    ($(($id:literal, $m:ident)),* $(,)?) => {
+        $(pub mod $m;)*
+        pub fn run(ctx: &Ctx) -> Option<RunResult> {
+            match ctx.prop.as_str() {
+                $($id => Some($m::run(ctx)),)*
+                _ => None,
+            }
+        }
+        pub fn replay(ctx: &Ctx, check: &str, case: &Value) -> Option<Result<(), String>> {
+            match ctx.prop.as_str() {
+                $($id => Some($m::replay(ctx, check, case)),)*
+                _ => None,
+            }
+        }
+    };
 }
 
-pub fn replay(ctx: &Ctx, check: &str, case: &Value) -> Option<Result<(), String>> {
-    match ctx.prop.as_str() {
-        "C01" => Some(c01::replay(ctx, check, case)),
-        _ => None,
-    }
-}
+props!(("C01", c01), ("C02", c02), ("C09", c09), ("C14", c14), ("C18", c18));
